@@ -107,7 +107,7 @@ impl Check for C01 {
         "C01"
     }
     fn rule(&self) -> &'static str {
-        "case = one lookahead-free mode (1-6 generated patterns, half via add_patterns) x 8 inputs sampled from the pattern languages (+prefixes, near misses, foreign and multi-byte characters), plus the bounded-exhaustive set of all pattern pairs over a tiny grammar x all inputs over {a,b,c} up to length 5; oracle = independent set-based matcher + longest-match/first-listed tokenizer, token lists compared for equality; non-trivial = some scan position where two different patterns both have a candidate (competition); distinct = hash of the decoded case"
+        "case = one lookahead-free mode (1-6 generated patterns, half via add_patterns) x 8 inputs sampled from the pattern languages (+prefixes, near misses, foreign and multi-byte characters), plus the bounded-exhaustive set of all pattern pairs over a tiny grammar x all inputs over {a,b,c} up to length 5, plus the string of all 1 112 064 scalar values in 272 slices under two class-free pattern lists (run first); oracle = independent set-based matcher + longest-match/first-listed tokenizer, token lists compared for equality; non-trivial = some scan position where two different patterns both have a candidate (competition); distinct = hash of the decoded case"
     }
     fn cases(&self, thorough: bool) -> usize {
         if thorough {
@@ -117,7 +117,18 @@ impl Check for C01 {
         }
     }
     fn fixed_cases(&self, _thorough: bool) -> Vec<Case> {
-        tiny_exhaustive_cases()
+        let mut v = tiny_exhaustive_cases();
+        // every scalar value once, in ascending order, as one input: spans and winners for every
+        // code point (the patterns have no named class, so that the reference needs no measured
+        // base set)
+        v.extend(scalar_slice_cases(
+            &[
+                &["[^a]", "a"],
+                &["[^b][\\u{80}-\\u{10FFFF}]?", "b", "[a-z]+"],
+            ],
+            4096,
+        ));
+        v
     }
     fn generate(&self, d: &mut Dec, thorough: bool) -> Case {
         let p = GenParams::for_tier(thorough);
@@ -237,6 +248,23 @@ impl Check for C01 {
                 }
             };
             if got != expected || !ended {
+                if expected.len() > 4096 {
+                    // huge fixed input: report the neighbourhood of the first difference only
+                    let i = expected
+                        .iter()
+                        .zip(got.iter())
+                        .position(|(a, b)| a != b)
+                        .unwrap_or(expected.len().min(got.len()));
+                    let win = |v: &[Tok]| v[i.saturating_sub(1).min(v.len())..(i + 3).min(v.len())].to_vec();
+                    return Err(Failure::new(
+                        "c01.stream",
+                        format!(
+                            "token stream on an input of {} characters differs from longest-match/first-listed tokenization at token #{} (ended: {})",
+                            n, i, ended
+                        ),
+                    )
+                    .exp_obs(win(&expected), win(&got)));
+                }
                 return Err(Failure::new(
                     "c01.stream",
                     format!(
@@ -249,6 +277,36 @@ impl Check for C01 {
         }
         Ok(st)
     }
+}
+
+/// Fixed cases whose inputs together are the string of all scalar values in ascending order, cut
+/// into slices of `slice_chars` characters (one case per slice and pattern list).
+pub fn scalar_slice_cases(pattern_lists: &[&[&str]], slice_chars: usize) -> Vec<Case> {
+    let all: Vec<char> = crate::sets::all_scalars().chars().collect();
+    let mut out = Vec::new();
+    for v in pattern_lists {
+        let mode = ModeSpec {
+            name: "INITIAL".into(),
+            pats: v
+                .iter()
+                .enumerate()
+                .map(|(i, s)| PatSpec {
+                    rx: rx::parse_supported(s),
+                    tt: i,
+                    la: None,
+                })
+                .collect(),
+            transitions: vec![],
+        };
+        for sl in all.chunks(slice_chars) {
+            out.push(Case {
+                modes: vec![mode.clone()],
+                inputs: vec![sl.iter().collect()],
+                ..Case::default()
+            });
+        }
+    }
+    out
 }
 
 // =================================================================================================
